@@ -154,3 +154,37 @@ def random_diffeq(rng):
     s.ode = None
     s.note = 'random diffeq'
     return s
+
+
+# ------------------------------------------------------------------------------------------
+# DAE models (collocation)
+# ------------------------------------------------------------------------------------------
+def dae_core():
+    out = []
+    out.append(Spec(nx=2, nu=1, nz=1,
+                    ode=[Z(0) * X(1) + t, nl1(X(0)) + U(0) * Pg('pc')],
+                    alg=[Z(0) - nl2(X(0), t) * Pg('a') + X(1)],
+                    params=[Sym('a', value=2), Sym('pc', 'control', value=3)],
+                    note='semi-explicit DAE, time-dep, parameters'))
+    out.append(Spec(nx=1, nu=1, nz=2,
+                    ode=[Z(0) + Z(1) * U(0)],
+                    alg=[Z(0) * Z(0) - X(0) + t, nl1(Z(1)) - Vg('vc') * X(0)],
+                    vars=[Sym('vc', 'control')],
+                    note='two algebraic variables, per-interval variable'))
+    return out
+
+
+def rational_tables(degree, scheme):
+    return (scheme == 'radau' and degree <= 2) or (scheme == 'legendre' and degree <= 1)
+
+
+def random_dae(rng):
+    s = random_ode(rng, nu=rng.choice([0, 1]))
+    nz = rng.choice([1, 1, 2])
+    lv = [X(i) for i in range(s.nx)] + [U(i) for i in range(s.nu)] + [t] + [Z(i) for i in range(nz)]
+    lv += [Pg(p.name) for p in s.params] + [Vg(v.name) for v in s.vars]
+    s.nz = nz
+    s.ode = [rexpr(rng, lv, depth=2) for _ in range(s.nx)]
+    s.alg = [Z(i) - rexpr(rng, lv, depth=2) for i in range(nz)]
+    s.note = 'random dae'
+    return s
